@@ -172,6 +172,167 @@ PROPS["C04"] = {
     "rule": "integrating and double-integrating filters, all limit pairs on the lattice, saturation durations 2 vs 2+l within the same saturation episode, random continuations",
 }
 
+PROPS["C02"] = {
+    "families": ["atan2"],
+    "n_quick": 200000, "n_thorough": 2000000,
+    "clauses_proved": [
+        "divi quotient in [0, 2^16] for all 0 <= y <= x < 2^31 (divi_quotient_bound) [after the fix: commit]",
+        "atani never overflows on the complete quotient table (65537 points, decide +kernel), 5215 <= r <= 2^29+2599, monotone (atani_range, atani_mono)",
+        "atan2 total for all i32 pairs, release = checked (atan2_total, atan2_never_panics, atan2_release_eq_checked); atan2(0,0) = 0; MIN operands saturate (atan2_min_saturates)",
+        "quadrant: r < 0 <-> y < 0 and -2^30 <= r < 2^30 <-> 0 <= x (atan2_sign, atan2_half_plane, atan2_quadrant, atan2_axes)",
+        "reflections about x axis / y axis / diagonal are exact complements off the mirror line (atan2_reflect_x_axis, atan2_reflect_y_axis, atan2_reflect_diagonal)",
+        "NEGATION on the mirror line: atan2(0, x) = 5215 for x >= 2, atan2(2,2) = 2^29+2599 (atan2_axis_offset, atan2_reflect_*_full_false): known finding F-C02-b",
+    ],
+    "clauses_explored": [
+        "accuracy max(1.5e-5, 1/max(|x|,|y|)) rad against f64 atan2 (complete small square, lattice/near-axis/near-diagonal/power-of-two/random pairs; thorough adds the complete first-octant triangle to 2^14)",
+    ],
+    "level_text": "All exact clauses (totality, quadrant, reflections off the mirror line, no overflow) are theorems for all 2^64 pairs, with the polynomial's range discharged by a complete kernel-evaluated table over the 65537 possible quotients. Accuracy against the real arctangent is explored natively. The mirror-line reflection clause is false for the code (proved negation, known finding).",
+    "level_note": "Model: divi, atani, atan2 (IdspModel/Model/Atan2.lean); the six polynomial coefficients are part of the model and tied by the atani correspondence.",
+    "rule": "pairs: complete square |x|,|y| <= 2^8 (2^11 thorough), magnitude classes, near diagonal/axis, powers of two +0..3, MIN/MAX; each pair checked for accuracy, quadrant, three reflections",
+}
+PROPS["C06"] = {
+    "families": ["pll"],
+    "n_quick": 200000, "n_thorough": 2000000,
+    "clauses_proved": [
+        "never panics: total model, the only plain product fits i64 (pll_total, pll_mul_fits)",
+        "gap: update(None) changes nothing but advances y0, x by f0 and y by f, for one and n gaps (pll_gap, pll_gap_iter)",
+        "frequency loop decoupled from phase; monotone descent (pll_freq_decoupled, pll_freq_descent)",
+        "Locked set: phase error in [0, 2^31/k+1], next frequency error <= 1, invariant under further updates (pll_locked_bounds, pll_locked_invariant)",
+        "lock from ANY state within 64*floor(2^32/k)+64 updates for every 2^8 <= k < 2^31 and every f0 (pll_locks, pll_locks_sharp, pll_C06)",
+    ],
+    "clauses_explored": [],
+    "level_text": "Every clause, including the numeric step bound for lock acquisition from an arbitrary state, is a kernel-checked theorem (all-integer halving argument).",
+    "level_note": "Model: PLL.update (IdspModel/Model/Pll.lean). The gain is constant during acquisition, as the property states.",
+    "rule": "native cross-check: gains 2^15..2^31-1 (2^10.. thorough) incl. powers of two +-1, f0 in {0, +-1, MIN, MAX, random}, scrambled prefixes; bound checked at n and for 3000 further updates",
+}
+PROPS["C14"] = {
+    "families": ["hbf"],
+    "n_quick": 3000, "n_thorough": 30000,
+    "clauses_proved": [
+        "stage refinement to a history-only specification; outputs depend only on (taps, history, block) (hbfdec_process_refines, hbfint_process_refines, *_depends_only_on_history)",
+        "partition invariance for any two admissible partitions incl. empty blocks, stages and cascades of any depth (hbfdec_partition_invariant, hbfint_partition_invariant, hbfdec_cascade_partition_invariant, hbfint_cascade_partition_invariant, *_block_append, *_blocks_spec)",
+        "output length = len/2, 2*len, len >> depth, len << depth; every slice expression in range, no zip cut short (hbfdec_output_length_in_range, hbfint_output_length_in_range, *_cascade_output_length, *_cascade_adm_of_block_size)",
+    ],
+    "clauses_explored": [
+        "in-place vs separate-buffer processing on the real slices (aliasing is a Rust-level matter; compared bit-for-bit natively)",
+    ],
+    "level_text": "Partition invariance and index safety are theorems over an ARBITRARY carrier with uninterpreted add/mul/sum/half, so they hold verbatim for IEEE f32/f64; the buffers are modelled literally (stale tail included). In-place operation is the same function in the model and is compared natively.",
+    "level_note": "Model: SymFir, HbfDec, HbfInt, cascades (IdspModel/Model/Hbf.lean); tied to the crate with Float32/Float instances, bit-exact.",
+    "rule": "random f32/f64 streams cut two ways (0-length, granule, maximal and random blocks), all ten tap sets, cascade depths 0..=4, in place and separate",
+}
+PROPS["C15"] = {
+    "families": ["hbf"],
+    "n_quick": 3000, "n_thorough": 30000,
+    "clauses_proved": [
+        "over any commutative ring: stage output = convolution with the symmetric FIR [t0,0,t1,0,...,1,...,0,t0], decimated by two and halved / applied to the zero-stuffed input, with explicit index alignment (hbf_fir_shape, hbfdec_is_decimated_convolution, hbfint_is_convolution_of_zero_stuffed, symfir_window_sum, hbf_fir_sum_three_parts)",
+        "after response_length() outputs of zero input every output is zero, stages and cascades, from any state (hbfdec_zero_after_response_length, hbfint_zero_after_response_length, *_cascade_zero_after_response_length, *_class versions for IEEE signed zeros)",
+    ],
+    "clauses_explored": [
+        "cascade impulse response (both directions, depths 1..=4): exactly symmetric, spans exactly response_length()+1 samples, unity DC gain, <= 3e-6 dB ripple to 0.4, >= 138 dB beyond 0.6 (dense frequency grid on the implementation's impulse response)",
+        "stage = FIR to float rounding on the real f32 code",
+    ],
+    "level_text": "The FIR equivalence and the zero-after-response-length clause are theorems (ring / abstract carrier); the published frequency-domain numbers are a supremum over a continuous band of a long trigonometric polynomial with f32 taps and are explored only.",
+    "level_note": "Model as C14. The tap values are constants of the crate; they are dumped at run time and used by the model driver.",
+    "rule": "frequency grid 2^12 (2^15 thorough) points over 0..high-rate Nyquist per cascade depth and direction; FIR check on random streams for all ten tap sets",
+}
+
+PROPS["C07"] = {
+    "families": ["rpll"],
+    "n_quick": 200000, "n_thorough": 2000000,
+    "clauses_proved": [
+        "returned pair = (phase(), frequency()) of the new state, both profiles (rpll_returns_getters)",
+        "missing sample advances only the phase by f (rpll_none_advances, rpll_none_advances_release, rpll_none_contract)",
+        "EXACT no-panic contract of update(Some x): dt2 <= 30, dt2 < sf <= 32, dt2 <= sp < dt2+32, non-negative timestamp step (rpll_total_under_contract, rpll_checked_ok_iff, rpll_negative_dx_panics)",
+        "frequency-loop closed form and dead band: ff' = ff iff 2^(32+dt2) - 2^(sf-1) <= ff*dx < 2^(32+dt2) + 2^(sf-1) (rpll_ff_update, rpll_dead_band, rpll_dead_band_iff)",
+        "NEGATION of the lock clause: dead-band orbit with 0.0162 turns phase error for ever (rpll_lock_phase_false_witness: F-C07-a); admissible configuration that never locks (rpll_never_locks_B, rpll_lock_full_false: F-C07-b)",
+    ],
+    "clauses_explored": [
+        "lock within 2^(sf-dt2+5)+2^(sp-dt2+5) updates to 1e-5 / 1e-3 turns over the admissible region (native sweep, timestamps crossing the i32 boundary); misses are accepted only inside the two listed finding classes with their quantitative envelopes",
+    ],
+    "level_text": "Structural clauses (getters, contract, dead band) are theorems; the lock clause is FALSE for the code (two proved witnesses) and is otherwise explored natively against the listed finding classes. No convergence proof is claimed for this loop.",
+    "level_note": "Model: RPLL.update (IdspModel/Model/Rpll.lean). The state rpllStar of the dead-band witness is reached from RPLL::new(8) after 1572864 updates by #eval and by the native oracle, not inside the kernel.",
+    "rule": "admissible (dt2, sf, sp, P, offset) with P at both ends, powers of two +-1 and random; update instants aligned to 2^dt2; sf-dt2 <= 13 (17 thorough)",
+}
+PROPS["C08"] = {
+    "families": ["pid"],
+    "n_quick": 60000, "n_thorough": 600000,
+    "clauses_proved": [
+        "over any field: the built coefficients realise (g0+g1 D+g2 D^2)/(l0+l1 D+l2 D^2), D = 1 - z^-1, at every (complex) frequency, with g_i the period-scaled gains and l_i = g_i/limit_i, l = 1 for P (pid_transfer, pid_transfer_ratio, pid_transfer_complex, pid_transfer_signs, pid_gains_order_P/I/I2, pid_lsum_ge_one)",
+        "no limits: feedback coefficients are exactly the integrator kernel for ANY coefficient type and quantiser with quantize 0 = 0, quantize 1 = ONE; -2*ONE representable (pid_exact_kernel, pid_exact_kernel_int)",
+        "order P with a lone proportional gain builds exactly [quantize g, 0, 0, 0, 0] (pid_order_p_lone_gain)",
+    ],
+    "clauses_explored": [
+        "f32/f64/fixed-point evaluation of the builder (IEEE rounding, powi) against the proved rational formula; Pid::build's copysign / NaN-to-infinity glue",
+    ],
+    "level_text": "The transfer-function identity and the exact-kernel clause are theorems over exact field arithmetic and an abstract quantiser; floating-point rounding is outside the theorems and is tied by tolerance correspondence and explored natively.",
+    "level_note": "Model: pidGl, pidBuild (IdspModel/Model/Coeff.lean), an unset limit is `none` (g/inf = 0). Not modelled: Pid::build (units, copysign), serde/miniconf.",
+    "rule": "orders x set/unset gain and limit masks x 18 decades x periods; transfer function compared cross-multiplied at random frequencies; kernel exactness for f32 f64 i16 i32 i64",
+}
+PROPS["C09"] = {
+    "families": ["coeff"],
+    "n_quick": 100000, "n_thorough": 1000000,
+    "clauses_proved": [
+        "over the reals, for all nine builders: DC / Nyquist / f0 response identities, allpass |H| = |gain| at every frequency, I/HO pole exactly at z = 1 (lowpass_response ... iho_response, polyZi_on_circle)",
+        "stability: Jury conditions for the eight stable types and 'Jury implies both complex roots inside the unit disc' (build_jury, build_poles_in_disc, jury_roots_in_disc', iho_poles')",
+        "gain is a pure output scale for every builder and every shape incl. Slope (build_gain_scale, build_gain_neg) [after the fix: commit; the original formula is refuted: slope_original_poles_move, slope_original_radicand_neg]",
+        "Biquad::from(&ba): divides by a0, exact invariance under common scaling, nearest representable value, 1 LSB stability (biquadFromBa_div, biquadFromBa_scale, quantize_nearest, quantize_close)",
+        "validity of the shape parameter: Q > 0, bandwidth > 0 always; slope iff s(sqrt(shelf)-1)^2 < shelf+1 (valid_q, valid_bandwidth, valid_slope_iff, valid_slope_partial); NEGATION for steep slopes (valid_slope_full_false: F-C09-b)",
+    ],
+    "clauses_explored": [
+        "f64 evaluation: finite coefficients, the identities to rounding (tolerance scaled with alpha), Jury inequalities in floating point, quantisation for i32",
+    ],
+    "level_text": "All identities, stability and the gain-scale clause are theorems over the real numbers; f64 rounding and libm are outside the theorems (tolerance correspondence + native sweep). Two parameter regions inside the stated range break the clause on the real code and are known findings (negative slope radicand; alpha beyond f64 precision).",
+    "level_note": "Model: FilterCfg builders, qi, biquadFromBa (IdspModel/Model/Coeff.lean) over an abstract scalar record; Lean Float instance in the driver. Not modelled: gain_db/shelf_db powf helpers, FilterRepr/miniconf glue.",
+    "rule": "log-uniform f0 1e-4..0.49, shape 0.1..50 (Q, bandwidth, slope), gain +-1e-2..1e2, shelf 1e-2..1e2, all nine types",
+}
+PROPS["C11"] = {
+    "families": ["lockin", "complex"],
+    "n_quick": 100000, "n_thorough": 1000000,
+    "clauses_proved": [
+        "update(sample, phase) = update_iq(sample, from_angle(phase)) for every state, sample, phase, configuration, both profiles (lockin_update_eq_bind, lockin_update_eq_update_iq, lockin_update_of_cossin, lockin_step)",
+        "mixer: floor(sample*lo/2^31) componentwise, never overflows, exact for LO values from cossin (cmul_scaled_i32_never_panics, cmul_scaled_i32_exact, lockin_mixer_exact); i16 and complex variants with their exact panic conditions (cmul_scaled_i16_never_panics, cmul_scaled_c_panics_iff, cmul_scaled_c_value)",
+        "abs_sqr / log2 panic iff both components are i32::MIN; saturating add/sub in range (abs_sqr_panics_iff, log2_panics_iff, abs_sqr_value, log2_value, csat_add_sub_range)",
+    ],
+    "clauses_explored": [
+        "recovered magnitude A/2 within 1e-3 relative and angle -theta within 2e-4 rad after 40*2^32/k samples (native sweep; small amplitudes miss the angle bound: known finding F-C11)",
+    ],
+    "level_text": "The equality clause and the mixer arithmetic are theorems; amplitude/phase recovery is an end-to-end numeric claim over cossin and two quantised second-order lowpasses and is explored natively only.",
+    "level_note": "Model: lockinUpdate, lockinUpdateIq, cmulScaled* (IdspModel/Model/Complex.lean), Lockin<Lowpass<2>>.",
+    "rule": "A in {2^23, 2^30, random}, theta, f in 0.05..0.45, k in {2^20, 2^25, random}, random start phase; >= 1.6e5 samples per case; equality clause from arbitrary filter states",
+}
+PROPS["C19"] = {
+    "families": ["cossin", "atan2", "complex"],
+    "n_quick": 150000, "n_thorough": 1500000,
+    "clauses_proved": [
+        "from_angle, arg, abs_sqr, log2 never panic on unit vectors, release = checked (polar_total)",
+        "log2 = -2 and 2^31(1 - 5e-5) <= abs_sqr < 2^31 for EVERY phase (polar_log2, polar_abs_sqr; 128-row kernel table + exact norm identity)",
+        "the unit vector is never on an axis or diagonal, so C02's reflection theorems apply (polar_off_mirror_lines)",
+        "round-trip error is reproduced exactly under quarter turn / half turn, negated under conjugation and quadrant mirror, constant over 128-phase blocks; hence the bound for all 2^32 phases follows from 2^22 first-octant fields (polar_roundtrip_quarter_turn, _half_turn, _conj, _mirror, _low7, polar_roundtrip_reduction, polar_roundtrip_full_of_fields)",
+    ],
+    "clauses_explored": [
+        "the constant 15038 LSB: all 2^32 phases natively in the thorough tier, 2^24 stratified in quick (max observed 12690)",
+    ],
+    "level_text": "Magnitude clauses are theorems for all phases; the round-trip bound is reduced by theorems to a 2^22-point statement, which is explored natively (it depends on the accuracy of both approximations against real trigonometry).",
+    "level_note": "Model: fromAngle, carg, absSqr, clog2 (IdspModel/Model/Complex.lean) on top of the C01/C02 models.",
+    "rule": "quick: one phase per 256-block; thorough: all 2^32 phases",
+}
+PROPS["C20"] = {
+    "families": ["osub", "satscale", "unwrap", "accu", "dsm", "pll", "lowpass", "cic_dec", "cic_int", "num", "biquad",
+                 "cossin", "atan2", "complex", "lockin", "rpll", "sweep", "hbf", "fbiquad", "coeff", "pid"],
+    "n_quick": 20000, "n_thorough": 200000,
+    "clauses_proved": [
+        "per entry point: the checked model returns ok on the documented domain (c20_cossin, c20_atan2, c20_polar, c20_abs_sqr_log2, c20_cmul, c20_cmul_complex, c20_pll, c20_rpll, c20_lowpass1, c20_saturating_scale, c20_dsm, c20_cic_interpolate, c20_macc, c20_mul_div, c20_sweep_next); CIC decimator, Unwrapper, Accu, overflowing_sub, PLL are total functions of the model (explicitly wrapping code)",
+        "half-band filters: every slice expression in range for admissible blocks (C14: hbfdec_output_length_in_range, hbfint_output_length_in_range, cascades)",
+        "NEGATIONS (known findings): Lowpass<2> full scale (c20_neg_lowpass2), Dsm<8> (c20_neg_dsm8), Biquad partial sum (c20_neg_biquad_partial_sum)",
+    ],
+    "clauses_explored": [
+        "panics that originate in Rust mechanics rather than arithmetic (slice indexing inside iterator adaptors, copy_within, unimplemented!() arms, float helpers of Sweep, coefficient builders in f64): checked-profile correspondence on every op family (PANIC lines must agree with the model) and the union of all native oracles plus sweeps of Sweep::next / Sweep::fit / AccuOsc / complex helpers / Nyquist",
+    ],
+    "level_text": "The union of the per-entry-point no-panic theorems of all other properties plus Sweep::next; non-arithmetic panics cannot be exhibited by the model and are covered by the checked-profile correspondence and native sweeps only (labelled exploration).",
+    "level_note": "Not reachable: svf::Svf has no public constructor (serde only). Lowpass<N>/Biquad::update::<N> for unsupported N are unimplemented!() by design and outside the documented domain.",
+    "rule": "all 21 op families in the checked profile + the quick tier of every other property's oracle + 2e6 Sweep states incl. the top 2^33 of the i64 range",
+}
+
 NOT_APPLICABLE = {
     "C%02d" % i: "check not built yet (work in progress in this session; see DESIGN.md section 5 for the plan)" for i in range(1, 21)
 }
